@@ -191,6 +191,14 @@ func NumTok(f float64) string {
 	return "n:" + strconv.FormatFloat(f, 'g', -1, 64)
 }
 
+// ResetTrace clears the per-run identity numbering and event list (for drivers that do not use Run).
+func (m *Impl) ResetTrace() {
+	m.ids = map[lua.LValue]string{}
+	m.counts = map[byte]int{}
+	m.events = nil
+	m.Notes = nil
+}
+
 // RecordEvent records a host call with the arguments currently on L's stack.
 func (m *Impl) RecordEvent(kind string, L *lua.LState) { m.record(kind, L) }
 
